@@ -28,6 +28,13 @@ Theorem C21_roundtrip : forall D A (p : prog A) ty f a ss',
     vle D (root ss') (root sd').
 Proof. exact roundtrip. Qed.
 
+(* The serialiser's description [root ss'] in C21_roundtrip is the description it was given plus what
+   it created: for programs without computed values every value of the given description is still
+   there, unchanged ([vext]; computed values are the one thing a serialiser overwrites). *)
+Theorem C21_serialiser_keeps_input : forall D A (p : prog A) ty f a s',
+  computed_free p -> nohole (VC ty f) -> run_ser D p ty f = Ok (a, s') -> vexts (VC ty f) (root s').
+Proof. exact ser_keeps_input. Qed.
+
 (* ... in particular on the flushed byte stream *)
 Theorem C21_roundtrip_flushed : forall D A (p : prog A) ty f a ss',
   sym p -> nohole (VC ty f) ->
